@@ -1,6 +1,6 @@
 SPECIFICATION MCSpec
 CONSTANTS ExhWidths = {8}
           FamWidths = {16, 32, 64}
-INVARIANTS TypeOK OpEqDecl WellFormed GroupedOK RoundTrip NativeAgrees
+INVARIANTS TypeOK NumOK OpEqDecl WellFormed GroupedOK RoundTrip NativeAgrees
 ACTION_CONSTRAINT EdgeOut
 CHECK_DEADLOCK FALSE
